@@ -557,6 +557,18 @@ func runT9(c *load.Ctx, r *report.RuleResult) {
 			return pe.NewSym(short(args[0]), types.Typ[types.String]), true
 		}
 	}
+	// byte-slice equality spelled with a call is the same atom as the == of the two strings
+	eqAtom := func(in *pe.Interp, args []pe.Value) (pe.Value, bool) {
+		an, bn := short(args[0]), short(args[1])
+		if bn < an {
+			an, bn = bn, an
+		}
+		return in.Choose("eq("+an+","+bn+")", []string{"false", "true"}) == 1, true
+	}
+	if f := c.Func(pkgBytes, "Bytes.Equals"); f != nil {
+		e.cfg.Intrinsics[f.String()] = eqAtom
+	}
+	e.cfg.Intrinsics["bytes.Equal"] = eqAtom
 	if f := c.Func(pkgJSON, "NewNumber"); f != nil {
 		numPtr := f.Signature.Results().At(0).Type()
 		e.cfg.Intrinsics[f.String()] = func(in *pe.Interp, args []pe.Value) (pe.Value, bool) {
